@@ -168,8 +168,16 @@ fn comment_file(lang: &str, rng: &mut Rng) -> B {
                 // a comment carrying an ignore marker; kept apart from other comments by code lines
                 if last_was_comment { code_line(lang, fill, &mut b); }
                 let ign = b.forbid("ignoredzzq");
-                let marker = ["spellchecker:ignore", "harper:ignore", "spell-checker: ignore", "spellcheck:ignore"][rng.below(4)];
-                b.nonprose("ignored", &format!("{indent}{lead}{marker} {ign} {fill}\n"));
+                let marker = ["spellchecker:ignore", "harper:ignore", "spell-checker: ignore", "spellcheck:ignore", "spellchecker: ignore", "spell-checker:ignore",
+                    "spellcheck: ignore", "harper: ignore"][rng.below(8)];
+                // the marker anywhere in the block: alone, behind words on its line, or on a later line of a block whose
+                // earlier lines talk about ignoring, spell checkers and harper themselves - the whole block is dropped
+                match rng.below(4) {
+                    0 => b.nonprose("ignored", &format!("{indent}{lead}{marker} {ign} {fill}\n")),
+                    1 => b.nonprose("ignored", &format!("{indent}{lead}we ignore the {ign} on purpose {marker} {ign}\n")),
+                    2 => b.nonprose("ignored", &format!("{indent}{lead}The harper spellchecker is told to ignore {ign} here.\n{indent}{lead}{marker} {ign} {fill}\n")),
+                    _ => b.nonprose("ignored", &format!("{indent}{lead}Ignored words: {ign}\n{indent}{lead}are ignored: {ign}\n{indent}{lead}{fill} {marker} {ign}\n{indent}{lead}and {ign} after it\n")),
+                }
                 code_line(lang, fill, &mut b);
                 last_was_comment = false;
             }
